@@ -822,6 +822,13 @@ pub fn check_doc(
         bounds,
         distinct,
     };
+    let trace = std::env::var_os("SCRUNCHMC_TRACE").is_some();
+    let t_start = std::time::Instant::now();
+    let lap = |what: &str| {
+        if trace {
+            eprintln!("  [{:8.3} s] {what} (n={}, records={})", t_start.elapsed().as_secs_f64(), text.len(), bounds.len());
+        }
+    };
     // the crate's reference
     let rbuf = match construct_with::<ReferenceDocument>(text, bounds) {
         Ok(Ok(b)) => Some(b),
@@ -862,6 +869,7 @@ pub fn check_doc(
         }
     };
     st.calls += 2;
+    lap("constructed reference + compressed");
     let reference = match &rbuf {
         Some(b) => match vcore::catch(|| ReferenceDocument::unpack(b).map(|x| x.0)) {
             Ok(Ok(d)) => Some(d),
@@ -901,6 +909,7 @@ pub fn check_doc(
             ));
         }
     }
+    lap("reference structure checked, second construct done");
     // a second parse, from a copy at a different address/alignment
     let mut shifted = vec![0xa5u8];
     shifted.extend_from_slice(&cbuf);
@@ -952,12 +961,15 @@ pub fn check_doc(
             None
         }
     };
+    lap("unpacked twice");
     if let Some(d) = &doc_a {
         check_structure("doc", d, &cx, st, outcomes, out);
     }
+    lap("structure of first parse checked");
     if let Some(d) = &doc_b {
         check_structure("doc-reparsed", d, &cx, st, outcomes, out);
     }
+    lap("structure of second parse checked");
     // patterns
     let mut expected: Vec<usize> = vec![];
     for_each_pattern(plan, |pat| {
@@ -989,6 +1001,7 @@ pub fn check_doc(
             }
         }
     });
+    lap("patterns done");
     // the re-parsed copy is reported only where it fails differently from the first parse
     let first: HashSet<String> = out
         .iter()
